@@ -480,6 +480,10 @@ class Unit:
         _clean_tokens(rf, ed, it.start, it.end, it.attrs)
         sp = FnSplicer(rf, it, spec, ed)
         sp.splice()
+        if spec.get('external_body') and it.body is not None:
+            # contract assumed: the body is not sent to the verifier at all (only the signature is kept)
+            ed.delete(rf.ct(it.body[0]).start, rf.ct(it.body[1]).end)
+            ed.insert(rf.ct(it.body[0]).start, '{ unimplemented!() }', 9)
         text = ed.render().strip()
         pre = ''
         if spec.get('external_body'):
